@@ -163,9 +163,17 @@ def build_and_run(case, d, poison):
     sandbox.run_captured_exit_handlers()
     if exc is not None:
         return info, None, exc, ds_obj
-    rd = pipeline.open_dataset(ds, opts)
-    levels = [pipeline.read_scale(rd, i) for i in range(len(info["scales"]))]
+    try:
+        rd = pipeline.open_dataset(ds, opts)
+        levels = [pipeline.read_scale(rd, i)
+                  for i in range(len(info["scales"]))]
+    except Exception as e:
+        return info, None, Unreadable(repr(e)[:200]), ds_obj
     return info, levels, None, ds_obj
+
+
+class Unreadable(Exception):
+    """compute_dyadic_scales returned normally but a level cannot be read"""
 
 
 def expected_next(ds_obj, prev, old, new, alt=False):
@@ -215,6 +223,13 @@ def _eval_in(col, case, d):
                 nontriv = 1
     if len(scales) < 2:
         nontriv = 0
+    if isinstance(exc_a, Unreadable):
+        col.ev(1, nontriv, "bad")
+        col.violation("C06/compute/returned-normally-but-a-level-is-not-"
+                      "readable/" + ("inside-envelope" if outside is None
+                                     else "outside-envelope"), case,
+                      "every level written, or an error", str(exc_a))
+        return
     if exc_a is not None:
         if outside is not None:
             col.ev(1, nontriv, "refused-outside-envelope")
